@@ -1,7 +1,7 @@
 (* C02 — theorems.  Only statements and `exact lemma` here.  NOTES.md says in plain words what each
    one means and what is not proved. *)
 From GixV.Base Require Import Bytes Outcome.
-From GixV.C02 Require Import Model Spec ProofsTree ProofsIter ProofsTagIter ProofsWrite ProofsKnown ProofsTime ProofsSig ProofsCommitRT ProofsExtraRT ProofsExtraW ProofsTagRT.
+From GixV.C02 Require Import Model Spec ProofsTree ProofsIter ProofsTagIter ProofsWrite ProofsKnown ProofsTime ProofsSig ProofsCommitRT ProofsExtraRT ProofsExtraW ProofsTagRT ProofsTagPGP.
 
 (* ---- trees ------------------------------------------------------------------------------------ *)
 
@@ -94,8 +94,8 @@ Proof. exact L_sig_decode_git. Qed.
 Example sig_example : sig_wf (mkGSig (bs " A U Thor ") (bs "a b@c") (mkGTime (-1) true 99 59)) = true.
 Proof. vm_compute. reflexivity. Qed.
 
-(* ---- the round trip of git-written commits and tags: FULL statements (not proved for all values; the
-   harness tests them on every generated value, the Examples below are computed instances) ---------- *)
+(* ---- the round trip of git-written commits and tags: the FULL statements, proved below
+   (commit_git_roundtrip, tag_git_roundtrip); the Examples are computed instances (non-vacuity) ------ *)
 
 Definition commit_git_roundtrip_full_statement : Prop := forall c, commit_wf c = true ->
   commit_decode (git_write_commit c) = Ok (commitref_of c)
@@ -143,6 +143,10 @@ Theorem tag_git_roundtrip_without_pgp_block : forall g, tag_wf g = true -> gg_pg
 Proof.
   intros g H Hp. split; [exact (L_tag_plain_decodes g H Hp)|exact (L_tag_plain_writes g H Hp)].
 Qed.
+
+(* PROVED: the full statement for tags, signed ones included *)
+Theorem tag_git_roundtrip : tag_git_roundtrip_full_statement.
+Proof. intros g H. split; [exact (L_tag_decodes g H)|exact (L_tag_writes g H)]. Qed.
 
 Example commit_git_roundtrip_instance :
   commit_wf ex_commit = true
